@@ -80,7 +80,7 @@ SUITE = {
     "C08": ("location", "the reference coordinates returned by the point location reproduce the query point through the element's own shape functions and nodes (thorough tier, repository tests only)"),
     "C11": ("law", "every freshly updated elastic law is symmetric, positive definite, C.S = I"),
     "C12": ("fearray", "FeArray @ / dot / ddot between two fields equal the per-point product at sampled points, result typed as a field"),
-    "C14": ("stale", "matrices served from a simulation's cache equal those a deep copy told that everything changed assembles anew"),
+    "C14": ("stale", "matrices served from a simulation's cache equal those a deep copy told that everything changed assembles anew - while a fault injector re-assigns, before every other solve of the workload, one numeric parameter of the model / material / beams through its public attribute with a relative change of 1e-6"),
     "C19": ("integrate", "Behavior.Integrate leaves its arguments untouched, is finite where converged, never decreases p"),
 }
 
